@@ -30,8 +30,8 @@ def c01(quick):
 
 def c04(quick):
     S = []
-    lim = 500 if quick else 8000
-    rnd = 120 if quick else 1500
+    lim = 250 if quick else 8000
+    rnd = 70 if quick else 1500
     for mode in (LIST, GEN, UNORD):
         for (n, nj, pre, bs) in [(3, 2, 2, 1), (4, 2, 4, 1), (4, 2, "all", 1), (5, 2, 2, 2)]:
             S.append((D(mode=mode, nj=nj, pre=pre, bs=bs, calls=[dict(n=n, fail=(1,)), dict(n=n)]), "dfs", lim))
@@ -183,3 +183,32 @@ def conformance(which, quick):
              D(mode=UNORD, nj=2, pre=2, bs=1, calls=[dict(n=4, cons="close"), dict(n=4)]),
              D(mode=GEN, nj=2, pre="all", bs=1, calls=[dict(n=4)])]
     return [(a, lim) for a in A], A
+
+
+def l3(which, quick):
+    """gate-steered runs on the built-in backends (harness/pl3.py)"""
+    R = []
+    backs = ("threading", "loky", "multiprocessing")
+    for b in backs:
+        if which == "C01":
+            R += [dict(backend=b, mode=LIST, nj=2, pre="2*n_jobs", bs=1, n=7, order="reverse"),
+                  dict(backend=b, mode=GEN, nj=2, pre=4, bs=2, n=9, order=[3, 2, 0, 7]),
+                  dict(backend=b, mode=LIST, nj=3, pre="all", bs=1, n=6, order=[2, 0, 1, 5, 4, 3])]
+            if not quick:
+                R += [dict(backend=b, mode=GEN, nj=2, pre="n_jobs", bs=1, n=8, order=[1, 0, 3, 2, 5, 4, 7, 6]), dict(backend=b, mode=LIST, nj=2, pre=6, bs=3, n=13, order="reverse"),
+                      dict(backend=b, mode=LIST, nj=1, pre=2, bs=1, n=4, order="inorder")]
+        elif which == "C04":
+            R += [dict(backend=b, mode=LIST, nj=2, pre=4, bs=1, n=8, order=[2, 3], fail=[2], calls=2),
+                  dict(backend=b, mode=GEN, nj=2, pre=4, bs=2, n=9, order=[3, 2, 0], fail=[5], calls=2),
+                  dict(backend=b, mode=UNORD, nj=2, pre="2*n_jobs", bs=1, n=6, order="reverse", fail=[0], calls=2)]
+            if not quick:
+                R += [dict(backend=b, mode=LIST, nj=3, pre="all", bs=1, n=6, order=[2, 0, 1], fail=[4, 1], calls=3)]
+        elif which == "C16":
+            R += [dict(backend=b, mode=GEN, nj=2, pre=4, bs=1, n=8, order="reverse"),
+                  dict(backend=b, mode=UNORD, nj=2, pre="2*n_jobs", bs=1, n=6, order="reverse"),
+                  dict(backend=b, mode=GEN, nj=2, pre=4, bs=1, n=8, order="inorder", closeat=2, calls=2)]
+            if not quick:
+                R += [dict(backend=b, mode=UNORD, nj=3, pre=6, bs=2, n=12, order=[5, 4, 1, 0, 9, 8], closeat=3, calls=2)]
+        elif which == "C09":
+            R += [dict(backend=b, mode=LIST, nj=2, pre=4, bs=1, n=12, order="inorder"), dict(backend=b, mode=GEN, nj=2, pre="2*n_jobs", bs=1, n=12, order="reverse", fail=[1])]
+    return [r for r in R if not (r["backend"] == "multiprocessing" and r["mode"] != LIST)]     # MultiprocessingBackend does not support return_as generators
